@@ -8,7 +8,8 @@ ID = "C09"
 LEAN_MODULE = "Ctrmml.Properties.C09"
 THEOREMS = ["C09_mds_shape", "C09_track_table_exact", "C09_slot_count", "C09_volume_carried", "C09_ids_injective_partial",
             "C09_ids_injective", "C09_tracks_exact", "C09_index_resolves", "C09_event_names", "C09_data_resolves", "C09_nothing_unused",
-            "C09_index_fits_byte", "C09_d19_counterexample_before_fix"]
+            "C09_index_fits_byte", "C09_d19_counterexample_before_fix",
+            "C09_reader_sees_operands_partial", "C09_seq_bytes", "C09_full_partial", "C09_nothing_unused_bytes", "fullPartialHyps_sound"]
 LEVEL = "proof"
 STREAM = "mds.bytes+conv.maps"
 CHUNK = 120
@@ -23,13 +24,25 @@ LEVEL_TEXT = ("Machine-checked over the model of the converter (writer of Model/
               "injectively, hence dblk ids are pairwise distinct (C09_ids_injective); every PAT/INS/PCM/PEG/MTAB event of every emitted list refers to a key present in its map, the "
               "index leads through the pointer table to the bytes of the list registered under that key, and that list is what the writer makes of the track the key names "
               "(C09_index_resolves); every used_data_map key has its dblk entry holding the named data-bank item (C09_data_resolves); every subroutine, macro track and data item is "
-              "the target of an emitted index-bearing event (C09_nothing_unused); operands fit their byte or the export is rejected (C09_index_fits_byte; D19 and the 16-bit offset wrap fixed).")
-LEVEL_NOTE = ("Hypothesis PlatformClean: no platform `cmd` injects a raw PAT/INS/PCM/PEG/MTAB opcode (the song names nothing for such an operand). Proved on the converter's event lists "
-              "and the exported seq/dblk; NOT proved: that the reader-side byte decoder of Spec/MdsResolve.checkFile reads exactly these operands back out of the convert_track bytes "
-              "(instruction boundaries of the codec) — decided per case by checkFile on the real file of every generated song (C09_full_statement). The per-event statement (the operand "
-              "pushed while handling THIS song event carries the index registered under the key THIS event names) is proved per hook call (C09_event_names); maps only grow.  Macro-track streams drop index operands and "
-              "zero-length drum notes emit no byte: nothing_unused is about emitted events, not bytes. Trusted: Lean kernel, hand-written model and spec, C11 encoder model as the "
-              "reference for entry contents, g++/ASan/UBSan, harness.")
+              "the target of an emitted index-bearing event (C09_nothing_unused); operands fit their byte or the export is rejected (C09_index_fits_byte; D19 and the 16-bit offset wrap fixed). "
+              "Round 3, reader side: convert_track's output is kept an instruction list through every iteration incl. the loop-break back-patch (Proofs/MdsRead*), so for every event list of the "
+              "fragment Frag (all commands of convert_track's switch incl. PAT, drum mode, DMFINISH, loops with breaks, loop point/jump; only terminator last; loops balanced; stream < 64 KiB) the "
+              "decoder of Spec/MdsResolve (decodeStream, boundaries by SeqWf.instrLen) walks the stream wherever it lies to exactly its end and returns exactly one reading per byte-emitting event; every "
+              "decoded PAT/INS/PCM/PEG/MTAB operand is the offset argument of an event and every such event is decoded (C09_reader_sees_operands_partial). Composed with the invariant, THROUGH the "
+              "serialised file: parseFile (RIFF walk, C13) returns the container with seq and the dblk entries (ids distinct, inside the data slots), headerOf reads base/slots/channel tracks at their "
+              "stream positions, decodeStream at every channel track and at streamPos of every subroutine slot returns opsOf of the emitted list, and every decoded index operand resolves via "
+              "MdsResolve.resolve to the stream of the subroutine / macro track registered under the writer's key resp. to the content of THE entry holding the data-bank item (C09_full_partial). "
+              "Byte-level nothing_unused with the exceptions explicit (C09_nothing_unused_bytes).")
+LEVEL_NOTE = ("Hypothesis PlatformClean: no platform `cmd` injects a raw PAT/INS/PCM/PEG/MTAB opcode (the song names nothing for such an operand). Residual hypotheses of C09_full_partial: every "
+              "channel/subroutine event list in Frag and every stream < 64 KiB (then the exported seq consists of bytes: C09_seq_bytes), sorted track map, at least one channel track (all decided by "
+              "Spec/MdsFrag.fullPartialHyps, sound by fullPartialHyps_sound, and EVALUATED by the judge on the model's export of every accepted generated song: see the note "
+              "'C09_full_partial residual hypotheses' of each run), file < 4 GiB; macro streams resolve when non-empty. Still decided per case by checkFile on the real file only "
+              "(C09_full_statement): the comparison of the decoded operands with the SONG's events (namedOf/matchAll/visit work list: which id each operand must name is proved per hook call, "
+              "C09_event_names, not along the player's traversal), drum-note operands (that a note decoded in drum mode is a routine index), the expected entry CONTENTS against the C11 encoder, "
+              "contiguity of streams, pcm bounds. Byte-level nothing_unused: entries referenced only from a macro-track list (convert_macro_track drops index operands), by a zero-length drum note or "
+              "by a drum note inside a drum routine (operand of DMFINISH) are emitted but named by no index operand of the sequence — they ARE named by the song (C09_nothing_unused), so this is "
+              "recorded as an observation, not a violation of the 'nothing unused' clause; the oracle accounts for them as `dropped`. Trusted: Lean kernel, hand-written model and spec, C11 encoder "
+              "model as the reference for entry contents, g++/ASan/UBSan, harness.")
 RULE = ("songs built from items {fm, 2op, psg, pcm instrument, normal/extended pitch envelope, subroutine, shared subroutine, drum routine, macro track}: corpus (D7, D19 and the "
         "index-limit boundaries 254/255/256), all permutations of definition order x first-use order for item sets of size <= 4 (flat, nested in subroutines, shared between "
         "channels), seeded random songs (songgen material + references, unused and duplicate definitions, PCM from generated WAVs), malformed (missing/ill-typed references, "
@@ -398,6 +411,21 @@ def cases(rng, tier):
     for _ in range(120 if tier == "quick" else 1200):
         req, tags = malformed(rng)
         yield Case(req, tags, "malformed")
+
+
+def judge_notes(cases, impl, judge):
+    """hypothesis coverage of C09_full_partial: the judge evaluates Spec/MdsFrag.fullPartialHyps on the model's export of
+    every accepted song it judged ok"""
+    hist = {}
+    for j in judge:
+        if j.startswith("ok H="):
+            k = j[3:]
+            hist[k] = hist.get(k, 0) + 1
+    if not hist:
+        return []
+    tot = sum(hist.values())
+    return ["C09_full_partial residual hypotheses (fullPartialHyps) on the %d accepted songs judged ok: %s"
+            % (tot, ", ".join("%s x%d" % kv for kv in sorted(hist.items())))]
 
 
 def outcome_class(a):
